@@ -661,6 +661,9 @@ func TestVerif_futuresrace(t *testing.T) {
 	if verifrt.Thorough() {
 		n = 8000
 	}
+	// yield points in future.go / system.go / context.go (vinstr), lock-free fuzz mode (no happens-before edges added)
+	verifrt.Begin(verifrt.ModeFuzzFree, verifrt.Seed(), 0)
+	defer verifrt.End()
 	vfRunFutureCases(t, R, n)
 }
 
